@@ -554,6 +554,15 @@ def run(ctx) -> None:
     undefined_variable_rules(ctx, fl, fl.func("FlowIRConcrete.get_component_configuration"),
                              "C11.R6-undefined-variable-detector", "C11.R6-undefined-variable-detector")
     ctx.floor("C11.R6-undefined-variable-detector", len(ctx.obligations) - before, 8, "obligations on the undefined-variable detector")
+    # .. and the flattening that a validated, expanded load validates afterwards resolves each scope against ITS OWN variables: a substitution
+    # scope that instance() builds once and keeps updating across the loop items (stages, components) lets a variable that exists only in an
+    # earlier item's scope resolve a reference of a later one - the '%(x)s' disappears from the flattened description and validate() has
+    # nothing left to report (the C04.R12 analysis re-used)
+    from checks.c04 import check_scope_per_item
+    check_scope_per_item(ctx, fl, "C11.R6-undefined-variable-detector",
+                         "a stage variable that references a variable defined only in an earlier stage's scope is silently resolved with that stage's value: "
+                         "the placeholder is gone from the replicated description, validation finds nothing and the workflow loads with an undefined "
+                         "variable")
 
     # ---------------- R3 -------------------------------------------------------------------------------
     dcs = fl.func("FlowIR.default_component_structure")
